@@ -61,7 +61,7 @@ TECHNIQUE = "Lean 4 big-step semantics + sound & complete set-valued evaluator; 
 
 FUEL = 120
 TIMING_CORPUS = ("catch_all", "shared", "fork", "two-errors", "catch-two-errors", "seq-stops", "containers")
-CPU_BUDGET_QUICK, CPU_BUDGET_THOROUGH = 10.0, 330.0       # seconds of process CPU for the generated stream (not wall clock)
+CPU_BUDGET_QUICK, CPU_BUDGET_THOROUGH = 8.0, 330.0       # seconds of process CPU for the generated stream (not wall clock)
 
 
 def corpus():
